@@ -213,7 +213,8 @@ def check_instance(x, where):
     except Exception as e:  # noqa
         return {"target": f"{name}.to_json", "inputs": where, "expected": "json.dumps(to_json()) succeeds", "observed": f"{type(e).__name__}: {e}"}
     try:
-        y = deserialize_extraction(json.loads(text))
+        from sharepoint2text.parsing.extractors.data_types import ExtractionInterface
+        y = ExtractionInterface.from_json(json.loads(text))          # the property's public entry point (round 7: was deserialize_extraction)
     except Exception as e:  # noqa
         return {"target": f"{name}.from_json", "inputs": where, "expected": "from_json(json.loads(json.dumps(to_json()))) returns",
                 "observed": f"{type(e).__name__}: {e}"}
@@ -1402,6 +1403,7 @@ ROUTES = (("native-scope/bounded#", None),
           ("_serialize_for_json", ("function-differential",)), ("serialize_extraction", ("function-differential",)),
           ("_get_type_registry", ("type-registry-reflective", "type-directed-roundtrip")), ("_get_field_types", ("function-differential", "type-directed-roundtrip")),
           ("_build_parser", ("cli-parser-switches", "cli-stdout-json")),
+          ("to_json", ("type-directed-roundtrip", "fixture-documents")), ("from_json", ("type-directed-roundtrip", "fixture-documents")),
           ("_deserialize_value", ("function-differential",)), ("_deserialize_dataclass", ("function-differential",)),
           ("deserialize_extraction", ("function-differential",)), ("_unwrap_optional", ("function-differential",)),
           ("_bytes_to_base64", ("base64-helpers-boundary-sizes",)), ("_bytesio_to_base64", ("base64-helpers-boundary-sizes",)),
